@@ -26,7 +26,7 @@ def Lowering (ths : List (Thread K V)) (r : Nat) (s : K) : Prop :=
 /-- every separator stored for an inner child is equivalent to that child's first separator,
     unless an Insert/Update is in the middle of lowering both -/
 def ISep (lt : K → K → Bool) (c : Config K V) : Prop :=
-  ∀ g j r sg sr s, c.tree.look g = some sg → sg.kids[j]? = some r → c.tree.look r = some sr →
+  ∀ (g j r : Nat) (sg sr : Shallow K V) (s : K), c.tree.look g = some sg → sg.kids[j]? = some r → c.tree.look r = some sr →
     0 < sr.height → sg.keys[j]? = some s →
     (∃ s', sr.keys.head? = some s' ∧ eqv lt s s' = true) ∨ Lowering c.threads r s
 
